@@ -14,6 +14,7 @@ import (
 	"sort"
 	"strings"
 	"sync"
+	"sync/atomic"
 	"testing"
 	"time"
 
@@ -23,6 +24,10 @@ import (
 	"github.com/ipfs/ipfs-cluster/api"
 	"github.com/ipfs/ipfs-cluster/consensus/crdt"
 	"github.com/ipfs/ipfs-cluster/datastore/inmem"
+
+	ds "github.com/ipfs/go-datastore"
+	logging "github.com/ipfs/go-log/v2"
+	query "github.com/ipfs/go-datastore/query"
 
 	host "github.com/libp2p/go-libp2p-core/host"
 	"github.com/libp2p/go-libp2p-core/network"
@@ -39,9 +44,14 @@ type trustCfg struct {
 }
 
 type psEvent struct {
-	Ev string `json:"ev"` // publish | trust | distrust
+	Ev string `json:"ev"` // publish | trust | distrust | link | addpeer | startup | release | forge
 	R  string `json:"r"`
 	P  string `json:"p,omitempty"`
+	// forge: a third host sends R a raw gossipsub message naming As as author and
+	// carrying the last heads broadcast of Of; Sig = none | bad | other
+	As  string `json:"as,omitempty"`
+	Of  string `json:"of,omitempty"`
+	Sig string `json:"sig,omitempty"`
 }
 
 type psScript struct {
@@ -61,6 +71,34 @@ type psScript struct {
 	// Quiet lists replicas whose rebroadcast_interval is one hour: within a
 	// script they broadcast their heads only when they publish themselves.
 	Quiet []string `json:"quiet,omitempty"`
+	// Down lists replicas whose setup() is not started with the world: the event
+	// "startup" starts it and holds it inside crdt.New (datastore gate) until the
+	// event "release".
+	Down []string `json:"down,omitempty"`
+}
+
+// gateStore is the datastore given to a replica that starts late: its query
+// on go-ds-crdt's heads namespace can be held back, which keeps setup() between
+// "subscribed to the topic" and "go-ds-crdt running" for as long as the script
+// wants (a large datastore read at start-up, made deterministic).
+type gateStore struct {
+	ds.Batching
+	armed   int32
+	once    sync.Once
+	reached chan struct{}
+	release chan struct{}
+}
+
+func newGateStore() *gateStore {
+	return &gateStore{Batching: inmem.New().(ds.Batching), reached: make(chan struct{}), release: make(chan struct{})}
+}
+
+func (s *gateStore) Query(q query.Query) (query.Results, error) {
+	if atomic.LoadInt32(&s.armed) == 1 && strings.HasSuffix(q.Prefix, "/h") {
+		s.once.Do(func() { close(s.reached) })
+		<-s.release
+	}
+	return s.Batching.Query(q)
 }
 
 type upd struct {
@@ -76,6 +114,11 @@ func (trackerSvc) Untrack(ctx context.Context, in *api.Pin, out *struct{}) error
 
 type replica struct {
 	relay bool
+	ready bool
+	store *gateStore
+	topic string
+	mu    sync.Mutex
+	last  map[peer.ID][]byte // relay: last broadcast seen per author
 	name  string
 	h    host.Host
 	dht  *dual.DHT
@@ -124,29 +167,47 @@ func newPsWorld(sc *psScript) (w *psWorld, err error) {
 	}
 	sort.Strings(w.order)
 	for _, n := range w.order {
-		g := &blockGater{}
-		h, ps, idht, err := gatedHost(g)
+		// Replicas run on hosts made by ipfscluster.NewClusterHost (the repository's
+		// pubsub options). Only relays and the second node of a blocked pair are
+		// harness hosts: the latter needs a connection gater, which refuses the
+		// other node in both directions.
+		harness := isIn(sc.Relay, n)
+		for _, b := range sc.Block {
+			if b[1] == n {
+				harness = true
+			}
+		}
+		r := &replica{name: n, last: map[peer.ID][]byte{}}
+		var err error
+		if harness {
+			r.gate = &blockGater{}
+			r.h, r.ps, r.dht, err = gatedHost(r.gate)
+		} else {
+			r.h, r.ps, r.dht, err = clusterHost()
+		}
 		if err != nil {
 			return w, err
 		}
-		r := &replica{name: n, h: h, dht: idht, ps: ps, gate: g}
 		w.reps[n] = r
-		w.names.SetPeer(n, h.ID())
+		w.names.SetPeer(n, r.h.ID())
 	}
 	for _, b := range sc.Block {
-		w.reps[b[0]].gate.block(w.reps[b[1]].h.ID())
+		if w.reps[b[0]].gate != nil {
+			return w, fmt.Errorf("blocked pair %v: first node must be a cluster host", b)
+		}
 		w.reps[b[1]].gate.block(w.reps[b[0]].h.ID())
 	}
 	for _, n := range w.order {
 		r := w.reps[n]
 		clusterName := fmt.Sprintf("c07-%d-%d", hx.Seed(), sc.ID)
+		th, err := mh.Sum([]byte(clusterName), mh.MD5, -1) // as crdt.Consensus.setup names the topic
+		if err != nil {
+			return w, err
+		}
+		r.topic = th.B58String()
 		if isIn(sc.Relay, n) {
 			r.relay = true
-			th, err := mh.Sum([]byte(clusterName), mh.MD5, -1) // as crdt.Consensus.setup names the topic
-			if err != nil {
-				return w, err
-			}
-			topic, err := r.ps.Join(th.B58String())
+			topic, err := r.ps.Join(r.topic)
 			if err != nil {
 				return w, err
 			}
@@ -156,9 +217,16 @@ func newPsWorld(sc *psScript) (w *psWorld, err error) {
 			}
 			go func() {
 				for {
-					if _, err := sub.Next(ctx); err != nil {
+					m, err := sub.Next(ctx)
+					if err != nil {
 						return
 					}
+					if len(m.Data) == 0 {
+						continue // rebroadcast of an empty head list
+					}
+					r.mu.Lock()
+					r.last[m.GetFrom()] = append([]byte{}, m.Data...)
+					r.mu.Unlock()
 				}
 			}()
 			continue
@@ -181,20 +249,24 @@ func newPsWorld(sc *psScript) (w *psWorld, err error) {
 		if err != nil {
 			return w, err
 		}
-		cons, err := crdt.New(r.h, r.dht, r.ps, cfg, inmem.New())
+		var store ds.Datastore = inmem.New()
+		if isIn(sc.Down, n) {
+			r.store = newGateStore()
+			store = r.store
+		}
+		cons, err := crdt.New(r.h, r.dht, r.ps, cfg, store)
 		if err != nil {
 			return w, err
 		}
 		r.cons = cons
-		srv := rpc.NewServer(r.h, "c07mock")
-		if err := srv.RegisterName("PinTracker", &trackerSvc{}); err != nil {
+		if r.store != nil {
+			continue // setup() starts with the event "startup"
+		}
+		if err := r.start(); err != nil {
 			return w, err
 		}
-		cons.SetClient(rpc.NewClientWithServer(r.h, "c07mock", srv))
-		select {
-		case <-cons.Ready(ctx):
-		case <-time.After(60 * time.Second):
-			return w, fmt.Errorf("crdt replica %s not ready", n)
+		if err := r.waitReady(); err != nil {
+			return w, err
 		}
 	}
 	links := sc.Links
@@ -212,6 +284,26 @@ func newPsWorld(sc *psScript) (w *psWorld, err error) {
 	}
 	time.Sleep(1500 * time.Millisecond) // gossipsub subscriptions / mesh
 	return w, nil
+}
+
+// start hands the component its RPC client, which lets setup() run.
+func (r *replica) start() error {
+	srv := rpc.NewServer(r.h, "c07mock")
+	if err := srv.RegisterName("PinTracker", &trackerSvc{}); err != nil {
+		return err
+	}
+	r.cons.SetClient(rpc.NewClientWithServer(r.h, "c07mock", srv))
+	return nil
+}
+
+func (r *replica) waitReady() error {
+	select {
+	case <-r.cons.Ready(context.Background()):
+		r.ready = true
+		return nil
+	case <-time.After(60 * time.Second):
+		return fmt.Errorf("crdt replica %s not ready", r.name)
+	}
 }
 
 func isIn(l []string, x string) bool {
@@ -265,7 +357,7 @@ func (w *psWorld) pins(r *replica) ([]upd, error) {
 func (w *psWorld) snapshot() (map[string][]upd, string, error) {
 	m := map[string][]upd{}
 	for _, n := range w.order {
-		if w.reps[n].relay {
+		if w.reps[n].relay || !w.reps[n].ready {
 			continue
 		}
 		p, err := w.pins(w.reps[n])
@@ -344,14 +436,18 @@ func runPsScript(sc *psScript, out *hx.Tracer, res *hx.Result) error {
 	if quiet == nil {
 		quiet = []string{}
 	}
-	tr.Emit("init", "script", sc.ID, "trust", tj, "quiet", quiet)
+	down := sc.Down
+	if down == nil {
+		down = []string{}
+	}
+	tr.Emit("init", "script", sc.ID, "trust", tj, "quiet", quiet, "down", down)
 	observe := func() error {
 		snap, err := w.settle(1300*time.Millisecond, 1300*time.Millisecond, 20*time.Second)
 		if err != nil {
 			return err
 		}
 		for _, n := range w.order {
-			if w.reps[n].relay {
+			if w.reps[n].relay || !w.reps[n].ready {
 				continue
 			}
 			tr.Emit("observe", "r", n, "pins", snap[n])
@@ -388,6 +484,41 @@ func runPsScript(sc *psScript, out *hx.Tracer, res *hx.Result) error {
 				return err
 			}
 			tr.Emit("distrust", "r", e.R, "p", e.P)
+		case "addpeer":
+			// what the open join handshake (Cluster.PeerAdd) does to the component
+			if err := r.cons.AddPeer(ctx, w.reps[e.P].h.ID()); err != nil {
+				return err
+			}
+			tr.Emit("addpeer", "r", e.R, "p", e.P)
+		case "startup":
+			if r.store == nil {
+				return fmt.Errorf("replica %s is not down", e.R)
+			}
+			atomic.StoreInt32(&r.store.armed, 1)
+			if err := r.start(); err != nil {
+				return err
+			}
+			tr.Emit("setup", "r", e.R)
+			select {
+			case <-r.store.reached:
+			case <-time.After(30 * time.Second):
+				return fmt.Errorf("replica %s: go-ds-crdt never read its heads", e.R)
+			}
+			tr.Emit("window", "r", e.R)
+			time.Sleep(time.Second) // the subscription reaches the other peers
+		case "release":
+			atomic.StoreInt32(&r.store.armed, 0)
+			close(r.store.release)
+			if err := r.waitReady(); err != nil {
+				return err
+			}
+			tr.Emit("ready", "r", e.R)
+		case "forge":
+			sig, err := w.forge(sc, e)
+			if err != nil {
+				return err
+			}
+			tr.Emit("forge", "as", e.As, "of", e.Of, "sig", sig, "kind", e.Sig, "to", e.R)
 		default:
 			return fmt.Errorf("unknown event %q", e.Ev)
 		}
@@ -410,6 +541,10 @@ func runPsScript(sc *psScript, out *hx.Tracer, res *hx.Result) error {
 // TestPubsub replays the scripts of $VERIF_IN and writes the trace to $VERIF_TRACE.
 func TestPubsub(t *testing.T) {
 	rig.Quiet()
+	if os.Getenv("C07_DEBUG") != "" {
+		logging.SetLogLevel("pubsub", "debug")
+		logging.SetLogLevel("crdt", "debug")
+	}
 	res := hx.NewResult()
 	defer res.Write()
 	lines, err := hx.LoadCases()
